@@ -123,11 +123,14 @@ CHECKS = {
              "workers gone and no device running once stop or abort has returned (C08_running_report_means_alive, "
              "C08_armed_after_stop_or_abort). PARTIAL: the theorems cover grammar G1 (configure and start issued while no worker "
              "thread is alive; start with no valid stream, and start while running - which is refused before any device is touched, "
-             "C08_start_while_running_touches_no_device, and then aborts the running acquisition - included); the full statement (any order, "
+             "C08_start_while_running_touches_no_device, and then aborts the running acquisition - and start on a device that failed and was "
+             "not configured since - a device start reaches the driver only in HAL state Armed, C08_started_only_when_armed; such a start is "
+             "refused before the device is touched, C08_unarmed_start_refused - included); the full statement (any order, "
              "incl. configure while running) is false "
              "of the unchanged code: two known findings recorded with replays (configure while running re-arms a running storage / closes "
              "devices in use). Tied to the code by the trace-acceptance check of C04 plus generated arbitrary API programs (start while running, "
              "stop/abort when idle, re-configuration - also while running, also with the other device pair -, streams switched off and on, "
+             "device faults in the middle of a session followed by start without a configure, "
              "monitor calls at any time); programs outside G1 are judged by the independent Python life-cycle automaton over the mock driver's "
              "call log and by ASan (the mock's close frees the device).",
         note=TB + "Modelled, not verified: OS fairness (an enabled thread is eventually scheduled); pthread mutex/condvar/event semantics "
